@@ -198,9 +198,10 @@ structure TFrame (k : Nat) (w w' : World) : Prop where
   dead : (getConn w k).alive = false → w'.broker.subs = w.broker.subs ∧ w'.stuck = w.stuck
   len : w'.conns.length = w.conns.length
   phase : w'.phase = w.phase
+  stopped : w'.stopped = w.stopped
 
 theorem TFrame.refl (k : Nat) (w : World) : TFrame k w w :=
-  ⟨rfl, rfl, rfl, rfl, rfl, rfl, rfl, fun _ h => h, fun _ => ⟨rfl, rfl⟩, rfl, rfl⟩
+  ⟨rfl, rfl, rfl, rfl, rfl, rfl, rfl, fun _ h => h, fun _ => ⟨rfl, rfl⟩, rfl, rfl, rfl⟩
 
 theorem TFrame.trans {k : Nat} {a b c : World} (h1 : TFrame k a b) (h2 : TFrame k b c) :
     TFrame k a c where
@@ -220,6 +221,7 @@ theorem TFrame.trans {k : Nat} {a b c : World} (h1 : TFrame k a b) (h2 : TFrame 
     exact ⟨(h2.dead hb).1.trans (h1.dead h).1, (h2.dead hb).2.trans (h1.dead h).2⟩
   len := h2.len.trans h1.len
   phase := h2.phase.trans h1.phase
+  stopped := h2.stopped.trans h1.stopped
 
 /-- the sub/unsub call an entry of the retry queue stands for -/
 def entryCall : Entry → Option SubCall
@@ -313,7 +315,7 @@ theorem send_spec (w : World) (k : Nat) (p : Pkt) (waits : Bool) :
     | nil =>
       simp only [nextFault, hf]
       exact ⟨⟨rfl, rfl, rfl, rfl, rfl, rfl, rfl, fun j h => (alive_logPkt w k p _ j) ▸ h,
-        fun h => (by rw [ha] at h; cases h), by simp, rfl⟩, rfl, rfl, rfl, by simp, fun _ => rfl,
+        fun h => (by rw [ha] at h; cases h), by simp, rfl, rfl⟩, rfl, rfl, rfl, by simp, fun _ => rfl,
         Or.inr (process_subs _ _), fun _ _ => process_subs _ _⟩
     | cons f rest =>
       simp only [nextFault, hf]
@@ -323,36 +325,36 @@ theorem send_spec (w : World) (k : Nat) (p : Pkt) (waits : Bool) :
       have hd : (getConn w k).alive = false → ∀ (P : Prop), P := fun h => by rw [ha] at h; cases h
       cases f with
       | ok =>
-        exact ⟨⟨rfl, rfl, rfl, rfl, rfl, rfl, rfl, hal, fun h => hd h _, by simp, rfl⟩, rfl, rfl, rfl, by simp,
+        exact ⟨⟨rfl, rfl, rfl, rfl, rfl, rfl, rfl, hal, fun h => hd h _, by simp, rfl, rfl⟩, rfl, rfl, rfl, by simp,
           fun _ => rfl, Or.inr (process_subs _ _), fun _ _ => process_subs _ _⟩
       | writeFail =>
         exact ⟨⟨rfl, rfl, rfl, rfl, rfl, rfl, rfl, fun j h => hal j (alive_kill _ _ j h),
-          fun h => hd h _, by simp, rfl⟩, rfl, rfl, rfl, by simp, fun _ => rfl, Or.inl rfl, by simp⟩
+          fun h => hd h _, by simp, rfl, rfl⟩, rfl, rfl, rfl, by simp, fun _ => rfl, Or.inl rfl, by simp⟩
       | lostReq =>
         refine ⟨⟨rfl, rfl, rfl, rfl, rfl, rfl, rfl, fun j h => hal j (alive_kill _ _ j h),
-          fun h => hd h _, by simp, rfl⟩, rfl, rfl, rfl, ?_, fun _ => rfl, Or.inl rfl, ?_⟩
+          fun h => hd h _, by simp, rfl, rfl⟩, rfl, rfl, rfl, ?_, fun _ => rfl, Or.inl rfl, ?_⟩
         · cases waits <;> simp
         · intro hw; simp [hw]
       | lostAck =>
         refine ⟨⟨rfl, rfl, rfl, rfl, rfl, rfl, rfl, fun j h => hal j (alive_kill _ _ j h),
-          fun h => hd h _, by simp, rfl⟩, rfl, rfl, rfl, ?_, fun _ => rfl, Or.inr (process_subs _ _), ?_⟩
+          fun h => hd h _, by simp, rfl, rfl⟩, rfl, rfl, rfl, ?_, fun _ => rfl, Or.inr (process_subs _ _), ?_⟩
         · cases waits <;> simp
         · intro hw; simp [hw]
       | silent =>
         cases waits with
         | false =>
-          exact ⟨⟨rfl, rfl, rfl, rfl, rfl, rfl, rfl, hal, fun h => hd h _, by simp, rfl⟩, rfl, rfl, rfl, by simp,
+          exact ⟨⟨rfl, rfl, rfl, rfl, rfl, rfl, rfl, hal, fun h => hd h _, by simp, rfl, rfl⟩, rfl, rfl, rfl, by simp,
             fun _ => rfl, Or.inr (process_subs _ _), by simp⟩
         | true =>
           simp only [not_true_eq_false, if_false]
           split
-          · exact ⟨⟨rfl, rfl, rfl, rfl, rfl, rfl, rfl, hal, fun h => hd h _, by simp, rfl⟩, rfl, rfl, rfl, by simp,
+          · exact ⟨⟨rfl, rfl, rfl, rfl, rfl, rfl, rfl, hal, fun h => hd h _, by simp, rfl, rfl⟩, rfl, rfl, rfl, by simp,
               fun _ => rfl, Or.inr (process_subs _ _), by simp⟩
-          · exact ⟨⟨rfl, rfl, rfl, rfl, rfl, rfl, rfl, hal, fun h => hd h _, by simp, rfl⟩, rfl, rfl, rfl,
+          · exact ⟨⟨rfl, rfl, rfl, rfl, rfl, rfl, rfl, hal, fun h => hd h _, by simp, rfl, rfl⟩, rfl, rfl, rfl,
               fun _ => rfl, by simp, Or.inr (process_subs _ _), by simp⟩
   · simp only [ha]
     exact ⟨⟨rfl, rfl, rfl, rfl, rfl, rfl, rfl, fun j h => (alive_logPkt w k p _ j) ▸ h,
-      fun _ => ⟨rfl, rfl⟩, by simp, rfl⟩, rfl, rfl, rfl, by simp, fun _ => rfl, Or.inl rfl, by simp⟩
+      fun _ => ⟨rfl, rfl⟩, by simp, rfl, rfl⟩, rfl, rfl, rfl, by simp, fun _ => rfl, Or.inl rfl, by simp⟩
 
 /-- a silent step: nothing of interest changes -/
 structure PreFrame (k : Nat) (w w' : World) : Prop where
@@ -383,7 +385,7 @@ theorem preFrame_ctr (w : World) (k : Nat) (n : Nat) :
     PreFrame k w (setConn w k { getConn w k with ctr := n }) :=
   ⟨⟨rfl, rfl, rfl, rfl, rfl, rfl, rfl,
     fun j h => (alive_setConn_same w k { getConn w k with ctr := n } rfl j) ▸ h,
-    fun _ => ⟨rfl, rfl⟩, by simp, rfl⟩, rfl, rfl, rfl, rfl, rfl⟩
+    fun _ => ⟨rfl, rfl⟩, by simp, rfl, rfl⟩, rfl, rfl, rfl, rfl, rfl⟩
 
 /-- the common tail of `subAttempt`, `unsubAttempt`, `relAttempt` -/
 def finish (r : World × Sent) (rq : Req) (h : Entry) : World × Outcome :=
@@ -400,7 +402,7 @@ theorem finish_spec {k : Nat} {p : Pkt} {w : World} {r : World × Sent} (rq : Re
   cases s with
   | acked =>
     exact ⟨⟨fr.taskQ, fr.accepted, fr.initialized, fr.cli, fr.goroutine, fr.gConnected, fr.connReady,
-      fr.alive, fr.dead, fr.len, fr.phase⟩, hs.retryQ, hs.subEst, hs.closeAfterTask, by simp [finish],
+      fr.alive, fr.dead, fr.len, fr.phase, fr.stopped⟩, hs.retryQ, hs.subEst, hs.closeAfterTask, by simp [finish],
       fun _ => hs.nstuck (by simp), by simp [finish], by simp [finish],
       Or.inr (hs.acked rfl rfl), fun _ => hs.acked rfl rfl⟩
   | stuck =>
@@ -475,7 +477,7 @@ theorem pubFinish_spec {k m qos id : Nat} {dup b : Bool} {w : World} {r : World 
     · exact (relAttempt_spec w2 k m id).pre pf
     · split
       · exact ⟨⟨fr.taskQ, fr.accepted, fr.initialized, fr.cli, fr.goroutine, fr.gConnected,
-          fr.connReady, fr.alive, fr.dead, fr.len, fr.phase⟩, hs.retryQ, hs.subEst, hs.closeAfterTask, by simp,
+          fr.connReady, fr.alive, fr.dead, fr.len, fr.phase, fr.stopped⟩, hs.retryQ, hs.subEst, hs.closeAfterTask, by simp,
           fun _ => hst, by simp, by simp, Or.inl hsub, fun _ => hsub⟩
       · exact ⟨fr, hs.retryQ, hs.subEst, hs.closeAfterTask, by simp,
           fun _ => hst, by simp, by simp, Or.inl hsub, fun _ => hsub⟩
@@ -518,7 +520,7 @@ theorem pubAttempt_spec (w : World) (k m qos : Nat) (dup : Bool) :
     exact ⟨⟨rfl, rfl, rfl, rfl, rfl, rfl, rfl,
       fun j h => (alive_setConn_same { w with pid := w.pid ++ [(m, (newID (getConn w k).ctr).2)] } k
         { getConn w k with ctr := (newID (getConn w k).ctr).1 } rfl j) ▸ h,
-      fun _ => ⟨rfl, rfl⟩, by simp, rfl⟩, rfl, rfl, rfl, rfl, rfl⟩
+      fun _ => ⟨rfl, rfl⟩, by simp, rfl, rfl⟩, rfl, rfl, rfl, rfl, rfl⟩
 
 /-- what a first-transmission closure (attempt + `absorb`) standing for the call `oc` does -/
 structure FirstSpec (k : Nat) (oc : Option SubCall) (w w' : World) : Prop where
@@ -550,7 +552,7 @@ theorem absorb_spec {k : Nat} {oc : Option SubCall} {w : World} {r : World × Ou
       | inr h => exact h
     | some h =>
       refine ⟨⟨fr.taskQ, fr.accepted, fr.initialized, fr.cli, fr.goroutine, fr.gConnected,
-        fr.connReady, fr.alive, fr.dead, fr.len, fr.phase⟩, a.subEst, Or.inr ⟨a.nstuck (by simp), Or.inr ⟨h, ?_,
+        fr.connReady, fr.alive, fr.dead, fr.len, fr.phase, fr.stopped⟩, a.subEst, Or.inr ⟨a.nstuck (by simp), Or.inr ⟨h, ?_,
         a.handle h e rfl, rfl, a.subs⟩⟩⟩
       show w1.retryQ ++ [h] = w.retryQ ++ [h]
       rw [a.retryQ]
@@ -635,9 +637,9 @@ structure ReqSpec (k : Nat) (oc : Option SubCall) (w w' : World) : Prop where
 theorem tframe_of_eqs {k : Nat} {w w' : World} (h1 : w'.taskQ = w.taskQ) (h2 : w'.accepted = w.accepted)
     (h3 : w'.initialized = w.initialized) (h4 : w'.cli = w.cli) (h5 : w'.goroutine = w.goroutine)
     (h6 : w'.gConnected = w.gConnected) (h7 : w'.connReady = w.connReady) (h8 : w'.conns = w.conns)
-    (h9 : w'.broker = w.broker) (h10 : w'.stuck = w.stuck) (h11 : w'.phase = w.phase) :
+    (h9 : w'.broker = w.broker) (h10 : w'.stuck = w.stuck) (h11 : w'.phase = w.phase) (h12 : w'.stopped = w.stopped) :
     TFrame k w w' :=
-  ⟨h1, h2, h3, h4, h5, h6, h7, fun j h => by simpa [getConn, h8] using h, fun _ => ⟨by rw [h9], h10⟩, by rw [h8], h11⟩
+  ⟨h1, h2, h3, h4, h5, h6, h7, fun j h => by simpa [getConn, h8] using h, fun _ => ⟨by rw [h9], h10⟩, by rw [h8], h11, h12⟩
 
 /-- shared shape of the three request tasks: update the record, then transmit or queue -/
 theorem reqTask_spec {k : Nat} {oc : Option SubCall} {w w1 wf : World} (q : Entry)
@@ -657,7 +659,7 @@ theorem reqTask_spec {k : Nat} {oc : Option SubCall} {w w1 wf : World} (q : Entr
       rw [hP1] at this
       exact this
   · rw [if_neg hem]
-    refine ⟨h1.trans (tframe_of_eqs rfl rfl rfl rfl rfl rfl rfl rfl rfl rfl rfl), h1e.1, h1e.2,
+    refine ⟨h1.trans (tframe_of_eqs rfl rfl rfl rfl rfl rfl rfl rfl rfl rfl rfl rfl), h1e.1, h1e.2,
       fun _ => ⟨?_, h1b ▸ hb⟩⟩
     show (pendOf (w1.retryQ ++ [q])).foldl netStep (Bm w1) = _
     rw [pendOf_append_single, hq, ← hP1]
@@ -668,7 +670,7 @@ theorem subscribeTask_spec (w : World) (k : Nat) (s : List Subscription)
     ReqSpec k (some (.sub s)) w (subscribeTask w k s) := by
   have hsp := applySubs_spec w.subEst s he
   exact reqTask_spec (w1 := { w with subEst := applySubs w.subEst s }) (.qSub s) rfl hb
-    (tframe_of_eqs rfl rfl rfl rfl rfl rfl rfl rfl rfl rfl rfl) rfl rfl ⟨hsp.1, hsp.2⟩
+    (tframe_of_eqs rfl rfl rfl rfl rfl rfl rfl rfl rfl rfl rfl rfl) rfl rfl ⟨hsp.1, hsp.2⟩
     (firstSub_spec _ k s)
 
 theorem runTask_req_spec (w : World) (k : Nat) (r : Req)
@@ -679,7 +681,7 @@ theorem runTask_req_spec (w : World) (k : Nat) (r : Req)
   | unsub ts =>
     have hsp := applyUnsubs_spec w.subEst ts he
     exact reqTask_spec (w1 := { w with subEst := applyUnsubs w.subEst ts }) (.qUnsub ts) rfl hb
-      (tframe_of_eqs rfl rfl rfl rfl rfl rfl rfl rfl rfl rfl rfl) rfl rfl ⟨hsp.1, hsp.2⟩
+      (tframe_of_eqs rfl rfl rfl rfl rfl rfl rfl rfl rfl rfl rfl rfl) rfl rfl ⟨hsp.1, hsp.2⟩
       (firstUnsub_spec _ k ts)
   | pub m qos =>
     by_cases hq : 0 < qos
@@ -712,8 +714,8 @@ theorem subscribeTask_frame (w : World) (k : Nat) (s : List Subscription) :
   simp only [subscribeTask]
   split
   · exact (tframe_of_eqs (w := w) (w' := { w with subEst := applySubs w.subEst s })
-      rfl rfl rfl rfl rfl rfl rfl rfl rfl rfl rfl).trans (firstSub_spec _ k s).frame
-  · exact tframe_of_eqs rfl rfl rfl rfl rfl rfl rfl rfl rfl rfl rfl
+      rfl rfl rfl rfl rfl rfl rfl rfl rfl rfl rfl rfl).trans (firstSub_spec _ k s).frame
+  · exact tframe_of_eqs rfl rfl rfl rfl rfl rfl rfl rfl rfl rfl rfl rfl
 
 theorem resubLoop_frame (l : SubList) (w : World) (k : Nat) : TFrame k w (resubLoop w k l) := by
   induction l generalizing w with
@@ -757,7 +759,7 @@ theorem runTask_resub_spec (w : World) (k : Nat)
         ∀ t, Pm (runTask w k .resubscribe) t = (Em w t).or (Pm w t)) := by
   have sp := resubLoop_spec w.subEst { w with subEst := [] } k hb noDupTopics_nil
   refine ⟨(tframe_of_eqs (w := w) (w' := { w with subEst := [] })
-    rfl rfl rfl rfl rfl rfl rfl rfl rfl rfl rfl).trans sp.1, fun hs => ?_⟩
+    rfl rfl rfl rfl rfl rfl rfl rfl rfl rfl rfl rfl).trans sp.1, fun hs => ?_⟩
   obtain ⟨a, b, c, d⟩ := sp.2 hs
   refine ⟨a, b, ?_, fun t => ?_⟩
   · show Em (resubLoop { w with subEst := [] } k w.subEst) = _
@@ -851,14 +853,14 @@ theorem retryLoop_frame (l : List Entry) (w : World) (k : Nat) :
   | cons e rest ih =>
     rw [retryLoop_cons]
     split
-    · exact ⟨tframe_of_eqs rfl rfl rfl rfl rfl rfl rfl rfl rfl rfl rfl, rfl⟩
+    · exact ⟨tframe_of_eqs rfl rfl rfl rfl rfl rfl rfl rfl rfl rfl rfl rfl, rfl⟩
     · have h0 : TFrame k w { w with totalRetries := w.totalRetries + 1 } :=
-        tframe_of_eqs rfl rfl rfl rfl rfl rfl rfl rfl rfl rfl rfl
+        tframe_of_eqs rfl rfl rfl rfl rfl rfl rfl rfl rfl rfl rfl rfl
       obtain ⟨W, f, hc⟩ := retryTail_cases { w with totalRetries := w.totalRetries + 1 } k e rest
       rcases hc with ⟨h, _⟩ | ⟨_, h⟩ | ⟨_, h⟩
       · rw [h]; exact ⟨h0.trans f.frame, f.subEst⟩
       · rw [h]
-        exact ⟨h0.trans (f.frame.trans (tframe_of_eqs rfl rfl rfl rfl rfl rfl rfl rfl rfl rfl rfl)),
+        exact ⟨h0.trans (f.frame.trans (tframe_of_eqs rfl rfl rfl rfl rfl rfl rfl rfl rfl rfl rfl rfl)),
           f.subEst⟩
       · rw [h]
         exact ⟨h0.trans (f.frame.trans (ih W).1), (ih W).2.trans f.subEst⟩
@@ -930,7 +932,7 @@ theorem runTask_retry_spec (w : World) (k : Nat) (hb : NoDupTopics w.broker.subs
         NoDupTopics (runTask w k .retry).broker.subs ∧ Pm (runTask w k .retry) = Pm w) := by
   have fr := retryLoop_frame w.retryQ { w with retryQ := [] } k
   refine ⟨(tframe_of_eqs (w := w) (w' := { w with retryQ := [] })
-    rfl rfl rfl rfl rfl rfl rfl rfl rfl rfl rfl).trans fr.1, fr.2, fun hs => ?_⟩
+    rfl rfl rfl rfl rfl rfl rfl rfl rfl rfl rfl rfl).trans fr.1, fr.2, fun hs => ?_⟩
   exact retryLoop_spec w.retryQ { w with retryQ := [] } k rfl hb hs
 
 theorem runTask_disconnect_spec (w : World) (k : Nat) :
@@ -940,10 +942,10 @@ theorem runTask_disconnect_spec (w : World) (k : Nat) :
   simp only [runTask]
   split
   · exact ⟨⟨rfl, rfl, rfl, rfl, rfl, rfl, rfl,
-      fun j h => (alive_logPkt w k _ _ j) ▸ (alive_kill _ _ j h), fun _ => ⟨rfl, rfl⟩, by simp, rfl⟩,
+      fun j h => (alive_logPkt w k _ _ j) ▸ (alive_kill _ _ j h), fun _ => ⟨rfl, rfl⟩, by simp, rfl, rfl⟩,
       rfl, rfl, rfl, rfl⟩
   · exact ⟨⟨rfl, rfl, rfl, rfl, rfl, rfl, rfl,
-      fun j h => (alive_logPkt w k _ _ j) ▸ h, fun _ => ⟨rfl, rfl⟩, by simp, rfl⟩, rfl, rfl, rfl, rfl⟩
+      fun j h => (alive_logPkt w k _ _ j) ▸ h, fun _ => ⟨rfl, rfl⟩, by simp, rfl, rfl⟩, rfl, rfl, rfl, rfl⟩
 
 /-! ### the task goroutine -/
 
@@ -1014,7 +1016,7 @@ structure Good (w : World) : Prop where
   procd : ∃ processed, w.accepted = processed ++ reqsOf w.taskQ ∧
     Em w = netEffect (callsOf processed)
   weak : RWeak (Pm w) (Em w)
-  sup : Task.resubscribe ∈ w.taskQ ∨ RSup (Pm w) (Em w)
+  sup : w.phase = .exited ∨ Task.resubscribe ∈ w.taskQ ∨ RSup (Pm w) (Em w)
 
 /-- the invariant: as long as the client is not blocked for ever inside a request -/
 def Inv (w : World) : Prop := w.stuck = false → Good w
@@ -1038,7 +1040,8 @@ theorem reqsOf_cons_disc (rest : List Task) : reqsOf (.disconnect :: rest) = req
 
 theorem good_runTask (w w1 : World) (k : Nat) (t : Task) (rest : List Task) (g : Good w)
     (htq : w.taskQ = t :: rest) (e1 : w1.taskQ = rest) (e2 : w1.accepted = w.accepted)
-    (e3 : w1.subEst = w.subEst) (e4 : w1.retryQ = w.retryQ) (e5 : w1.broker = w.broker) :
+    (e3 : w1.subEst = w.subEst) (e4 : w1.retryQ = w.retryQ) (e5 : w1.broker = w.broker)
+    (e6 : w1.phase = w.phase) :
     Inv (runTask w1 k t) := by
   intro hs
   obtain ⟨pr, hacc, hem⟩ := g.procd
@@ -1057,10 +1060,11 @@ theorem good_runTask (w w1 : World) (k : Nat) (t : Task) (rest : List Task) (g :
       simp only [netEffect]
       rw [callsOf_append_single]
     · rw [sp.em, hp, hE1, hP1]; exact rweak_stepO g.weak _
-    · rw [sp.frame.taskQ, e1]
-      cases g.sup with
-      | inl h => rw [htq] at h; simp at h; exact Or.inl h
-      | inr h => rw [sp.em, hp, hE1, hP1]; exact Or.inr (rsup_stepO h _)
+    · rw [sp.frame.taskQ, e1, sp.frame.phase, e6]
+      rcases g.sup with h | h | h
+      · exact Or.inl h
+      · rw [htq] at h; simp at h; exact Or.inr (Or.inl h)
+      · rw [sp.em, hp, hE1, hP1]; exact Or.inr (Or.inr (rsup_stepO h _))
   | resubscribe =>
     have sp := runTask_resub_spec w1 k nb ne
     obtain ⟨a, b, c, d⟩ := sp.2 hs
@@ -1073,7 +1077,7 @@ theorem good_runTask (w w1 : World) (k : Nat) (t : Task) (rest : List Task) (g :
         cases g.weak x with
         | inl h => rw [h, hE]; rfl
         | inr h => rw [h]; rfl
-    refine ⟨a, b, ⟨pr, ?_, ?_⟩, ?_, Or.inr ?_⟩
+    refine ⟨a, b, ⟨pr, ?_, ?_⟩, ?_, Or.inr (Or.inr ?_)⟩
     · rw [sp.1.accepted, sp.1.taskQ, e1, e2, hacc, htq, reqsOf_cons_resub]
     · rw [c, hE1]; exact hem
     · rw [c, hPE, hE1]; exact rweak_refl _
@@ -1086,10 +1090,11 @@ theorem good_runTask (w w1 : World) (k : Nat) (t : Task) (rest : List Task) (g :
     refine ⟨sp.2.1 ▸ ne, b, ⟨pr, ?_, hE.trans hem⟩, ?_, ?_⟩
     · rw [sp.1.accepted, sp.1.taskQ, e1, e2, hacc, htq, reqsOf_cons_retry]
     · rw [hE, hp, hP1]; exact g.weak
-    · rw [sp.1.taskQ, hE, hp, hP1, e1]
-      cases g.sup with
-      | inl h => rw [htq] at h; simp at h; exact Or.inl h
-      | inr h => exact Or.inr h
+    · rw [sp.1.taskQ, hE, hp, hP1, e1, sp.1.phase, e6]
+      rcases g.sup with h | h | h
+      · exact Or.inl h
+      · rw [htq] at h; simp at h; exact Or.inr (Or.inl h)
+      · exact Or.inr (Or.inr h)
   | disconnect =>
     obtain ⟨fr, h1, h2, h3, _⟩ := runTask_disconnect_spec w1 k
     have hE : Em (runTask w1 k .disconnect) = Em w := by simp only [Em, h1, e3]
@@ -1097,10 +1102,11 @@ theorem good_runTask (w w1 : World) (k : Nat) (t : Task) (rest : List Task) (g :
     refine ⟨h1 ▸ ne, h3 ▸ nb, ⟨pr, ?_, hE.trans hem⟩, ?_, ?_⟩
     · rw [fr.accepted, fr.taskQ, e1, e2, hacc, htq, reqsOf_cons_disc]
     · rw [hE, hP]; exact g.weak
-    · rw [fr.taskQ, hE, hP, e1]
-      cases g.sup with
-      | inl h => rw [htq] at h; simp at h; exact Or.inl h
-      | inr h => exact Or.inr h
+    · rw [fr.taskQ, hE, hP, e1, fr.phase, e6]
+      rcases g.sup with h | h | h
+      · exact Or.inl h
+      · rw [htq] at h; simp at h; exact Or.inr (Or.inl h)
+      · exact Or.inr (Or.inr h)
 
 theorem runTask_req_frame (w : World) (k : Nat) (r : Req) : TFrame k w (runTask w k (.req r)) := by
   cases r with
@@ -1109,23 +1115,23 @@ theorem runTask_req_frame (w : World) (k : Nat) (r : Req) : TFrame k w (runTask 
     simp only [runTask]
     split
     · exact (tframe_of_eqs (w := w) (w' := { w with subEst := applyUnsubs w.subEst ts })
-        rfl rfl rfl rfl rfl rfl rfl rfl rfl rfl rfl).trans (firstUnsub_spec _ k ts).frame
-    · exact tframe_of_eqs rfl rfl rfl rfl rfl rfl rfl rfl rfl rfl rfl
+        rfl rfl rfl rfl rfl rfl rfl rfl rfl rfl rfl rfl).trans (firstUnsub_spec _ k ts).frame
+    · exact tframe_of_eqs rfl rfl rfl rfl rfl rfl rfl rfl rfl rfl rfl rfl
   | pub m qos =>
     simp only [runTask]
     split
     · exact (firstPub_spec w k m qos).frame
     · split
-      · exact tframe_of_eqs rfl rfl rfl rfl rfl rfl rfl rfl rfl rfl rfl
+      · exact tframe_of_eqs rfl rfl rfl rfl rfl rfl rfl rfl rfl rfl rfl rfl
       · exact TFrame.refl k w
 
 theorem runTask_frame (w : World) (k : Nat) (t : Task) : TFrame k w (runTask w k t) := by
   cases t with
   | req r => exact runTask_req_frame w k r
   | resubscribe => exact (tframe_of_eqs (k := k) (w := w) (w' := { w with subEst := [] })
-      rfl rfl rfl rfl rfl rfl rfl rfl rfl rfl rfl).trans (resubLoop_frame _ _ k)
+      rfl rfl rfl rfl rfl rfl rfl rfl rfl rfl rfl rfl).trans (resubLoop_frame _ _ k)
   | retry => exact (tframe_of_eqs (k := k) (w := w) (w' := { w with retryQ := [] })
-      rfl rfl rfl rfl rfl rfl rfl rfl rfl rfl rfl).trans (retryLoop_frame _ _ k).1
+      rfl rfl rfl rfl rfl rfl rfl rfl rfl rfl rfl rfl).trans (retryLoop_frame _ _ k).1
   | disconnect => exact (runTask_disconnect_spec w k).1
 
 
@@ -1134,26 +1140,32 @@ theorem runTask_cli (w : World) (k : Nat) (t : Task) : (runTask w k t).cli = w.c
 
 theorem good_of_eqs {w w' : World} (g : Good w) (h1 : w'.taskQ = w.taskQ)
     (h2 : w'.accepted = w.accepted) (h3 : w'.subEst = w.subEst) (h4 : w'.retryQ = w.retryQ)
-    (h5 : w'.broker.subs = w.broker.subs) : Good w' := by
+    (h5 : w'.broker.subs = w.broker.subs) (h6 : w.phase = .exited → w'.phase = .exited) :
+    Good w' := by
   have hE : Em w' = Em w := by simp only [Em, h3]
   have hP : Pm w' = Pm w := by simp only [Pm, Bm, h4, h5]
   obtain ⟨pr, a, b⟩ := g.procd
   exact ⟨h3 ▸ g.nodupE, h5 ▸ g.nodupB, ⟨pr, by rw [h1, h2, a], hE.trans b⟩,
-    by rw [hE, hP]; exact g.weak, by rw [hE, hP, h1]; exact g.sup⟩
+    by rw [hE, hP]; exact g.weak, by
+      rw [hE, hP, h1]
+      rcases g.sup with h | h | h
+      · exact Or.inl (h6 h)
+      · exact Or.inr (Or.inl h)
+      · exact Or.inr (Or.inr h)⟩
 
 theorem inv_of_eqs {w w' : World} (g : Inv w) (h0 : w'.stuck = w.stuck) (h1 : w'.taskQ = w.taskQ)
     (h2 : w'.accepted = w.accepted) (h3 : w'.subEst = w.subEst) (h4 : w'.retryQ = w.retryQ)
-    (h5 : w'.broker.subs = w.broker.subs) : Inv w' :=
-  fun hs => good_of_eqs (g (h0 ▸ hs)) h1 h2 h3 h4 h5
+    (h5 : w'.broker.subs = w.broker.subs) (h6 : w.phase = .exited → w'.phase = .exited) : Inv w' :=
+  fun hs => good_of_eqs (g (h0 ▸ hs)) h1 h2 h3 h4 h5 h6
 
 theorem runTasks_inv (n : Nat) (w : World) (h : Inv w) : Inv (runTasks n w) := by
   refine runTasks_induct Inv ?_ ?_ ?_ runTask_cli n w h
   · intro w h _ _ _
-    exact inv_of_eqs h rfl rfl rfl rfl rfl rfl
+    exact inv_of_eqs h rfl rfl rfl rfl rfl rfl id
   · intro w k t rest h htq _ hs _ _
-    exact good_runTask w _ k t rest (h hs) htq rfl rfl rfl rfl rfl
+    exact good_runTask w _ k t rest (h hs) htq rfl rfl rfl rfl rfl rfl
   · intro w k h _ _
-    exact inv_of_eqs h rfl rfl rfl rfl rfl rfl
+    exact inv_of_eqs h rfl rfl rfl rfl rfl rfl id
 
 theorem loopReact_eqs (w : World) :
     (loopReact w).stuck = w.stuck ∧ (loopReact w).taskQ = w.taskQ ∧
@@ -1162,7 +1174,8 @@ theorem loopReact_eqs (w : World) :
     (loopReact w).initialized = w.initialized ∧ (loopReact w).cli = w.cli ∧
     (loopReact w).goroutine = w.goroutine ∧ (loopReact w).gConnected = w.gConnected ∧
     (loopReact w).connReady = w.connReady ∧ (loopReact w).conns = w.conns ∧
-    (∀ k, (loopReact w).phase = .connackGate k → w.phase = .connackGate k) := by
+    (∀ k, (loopReact w).phase = .connackGate k → w.phase = .connackGate k) ∧
+    (w.phase = .exited → (loopReact w).phase = .exited) := by
   unfold loopReact
   split
   · split
@@ -1171,8 +1184,8 @@ theorem loopReact_eqs (w : World) :
   · simp
 
 theorem progress_inv (w : World) (h : Inv w) : Inv (progress w) := by
-  obtain ⟨a, b, c, d, e, f, _⟩ := loopReact_eqs (runTasks (w.taskQ.length + 1) w)
-  exact inv_of_eqs (runTasks_inv _ w h) a b c d e (congrArg Broker.subs f)
+  obtain ⟨a, b, c, d, e, f, _, _, _, _, _, _, _, hx⟩ := loopReact_eqs (runTasks (w.taskQ.length + 1) w)
+  exact inv_of_eqs (runTasks_inv _ w h) a b c d e (congrArg Broker.subs f) hx
 
 /-- before the first accepted CONNACK nothing has reached the broker: the task goroutine can only
     run on a connection that is already dead -/
@@ -1252,7 +1265,7 @@ theorem progress_invK (w : World) (h : InvK w) : InvK (progress w) := by
 
 theorem progress_invL (w : World) (h : InvL w) : InvL (progress w) := by
   intro k hk
-  obtain ⟨_, _, _, _, _, _, _, h1, h2, _, _, h5, h6⟩ := loopReact_eqs (runTasks (w.taskQ.length + 1) w)
+  obtain ⟨_, _, _, _, _, _, _, h1, h2, _, _, h5, h6, _⟩ := loopReact_eqs (runTasks (w.taskQ.length + 1) w)
   obtain ⟨_, b, c, d, e⟩ := runTasks_field (w.taskQ.length + 1) w
   have := h k (b ▸ h6 k hk)
   unfold progress
@@ -1278,16 +1291,18 @@ structure Same (w w' : World) : Prop where
   phase : w'.phase = w.phase
   len : w'.conns.length = w.conns.length
   alive : ∀ j, (getConn w' j).alive = (getConn w j).alive
+  stopped : w'.stopped = w.stopped
 
 theorem Same.refl (w : World) : Same w w :=
-  ⟨rfl, rfl, rfl, rfl, rfl, rfl, rfl, rfl, rfl, rfl, rfl, rfl, rfl, rfl, fun _ => rfl⟩
+  ⟨rfl, rfl, rfl, rfl, rfl, rfl, rfl, rfl, rfl, rfl, rfl, rfl, rfl, rfl, fun _ => rfl, rfl⟩
 
 theorem Same.trans {a b c : World} (h1 : Same a b) (h2 : Same b c) : Same a c :=
   ⟨h2.stuck.trans h1.stuck, h2.taskQ.trans h1.taskQ, h2.accepted.trans h1.accepted,
     h2.subEst.trans h1.subEst, h2.retryQ.trans h1.retryQ, h2.broker.trans h1.broker,
     h2.initialized.trans h1.initialized, h2.cli.trans h1.cli, h2.goroutine.trans h1.goroutine,
     h2.gConnected.trans h1.gConnected, h2.connReady.trans h1.connReady, h2.cfg.trans h1.cfg,
-    h2.phase.trans h1.phase, h2.len.trans h1.len, fun j => (h2.alive j).trans (h1.alive j)⟩
+    h2.phase.trans h1.phase, h2.len.trans h1.len, fun j => (h2.alive j).trans (h1.alive j),
+    h2.stopped.trans h1.stopped⟩
 
 theorem deliverInbound_same (w : World) (k m qos : Nat) : Same w (deliverInbound w k m qos) := by
   unfold deliverInbound
@@ -1297,8 +1312,8 @@ theorem deliverInbound_same (w : World) (k m qos : Nat) : Same w (deliverInbound
   · split <;> split
     all_goals first
       | exact ⟨rfl, rfl, rfl, rfl, rfl, rfl, rfl, rfl, rfl, rfl, rfl, rfl, rfl, by simp,
-          fun j => alive_logPkt _ _ _ _ j⟩
-      | exact ⟨rfl, rfl, rfl, rfl, rfl, rfl, rfl, rfl, rfl, rfl, rfl, rfl, rfl, rfl, fun _ => rfl⟩
+          fun j => alive_logPkt _ _ _ _ j, rfl⟩
+      | exact ⟨rfl, rfl, rfl, rfl, rfl, rfl, rfl, rfl, rfl, rfl, rfl, rfl, rfl, rfl, fun _ => rfl, rfl⟩
 
 theorem inbFold_same (inb : List (Nat × Nat)) (w : World) (k : Nat) :
     Same w (inb.foldl (fun w (mq : Nat × Nat) => deliverInbound w k mq.1 mq.2) w) := by
@@ -1308,6 +1323,7 @@ theorem inbFold_same (inb : List (Nat × Nat)) (w : World) (k : Nat) :
 
 theorem inv_of_same {w w' : World} (s : Same w w') (h : Inv w) : Inv w' :=
   inv_of_eqs h s.stuck s.taskQ s.accepted s.subEst s.retryQ (congrArg Broker.subs s.broker)
+    (fun hx => s.phase ▸ hx)
 
 theorem invK_of_same {w w' : World} (s : Same w w') (h : InvK w) : InvK w' :=
   invK_of h s.initialized (congrArg Broker.subs s.broker) s.stuck (fun h => s.gConnected ▸ h)
@@ -1330,9 +1346,9 @@ def cp3 (w : World) (k : Nat) (sp : Bool) (inb : List (Nat × Nat)) : World :=
 /-- the world in `step w (.connackOk sp inb)` just before the task goroutine and the loop run -/
 def connackPre (w : World) (k : Nat) (sp : Bool) (inb : List (Nat × Nat)) : World :=
   let w3 := cp3 w k sp inb
-  let w4 := if w3.initialized ∧ (¬ sp ∨ w3.cfg.always) then pushTask w3 .resubscribe else w3
-  let w5 := pushTask w4 .retry
-  { w5 with initialized := true, phase := .up k }
+  let w4 := if w3.initialized ∧ (¬ sp ∨ w3.cfg.always) ∧ ¬ w3.stopped then pushTask w3 .resubscribe else w3
+  let w5 := if w4.stopped then w4 else pushTask w4 .retry
+  { w5 with initialized := true, phase := if w5.stopped then .exited else .up k }
 
 theorem step_connackOk (w : World) (k : Nat) (sp : Bool) (inb : List (Nat × Nat))
     (h : w.phase = .connackGate k) :
@@ -1347,10 +1363,11 @@ theorem cp3_fields (w : World) (k : Nat) (sp : Bool) (inb : List (Nat × Nat)) :
     (cp3 w k sp inb).broker.subs = (if sp then w.broker.subs else []) ∧
     (cp3 w k sp inb).initialized = w.initialized ∧ (cp3 w k sp inb).cfg = w.cfg ∧
     (cp3 w k sp inb).cli = w.cli ∧ (cp3 w k sp inb).goroutine = w.goroutine ∧
-    (cp3 w k sp inb).conns.length = w.conns.length ∧ (cp3 w k sp inb).connReady = true := by
+    (cp3 w k sp inb).conns.length = w.conns.length ∧ (cp3 w k sp inb).connReady = true ∧
+    (cp3 w k sp inb).stopped = w.stopped := by
   have s := inbFold_same inb (cp1 w k sp) k
   refine ⟨s.stuck, s.taskQ, s.accepted, s.subEst, s.retryQ, ?_, s.initialized, s.cfg, s.cli,
-    s.goroutine, ?_, rfl⟩
+    s.goroutine, ?_, rfl, s.stopped⟩
   · show (inb.foldl _ (cp1 w k sp)).broker.subs = _
     rw [s.broker]
     cases sp <;> rfl
@@ -1368,23 +1385,52 @@ theorem connackPre_fields (w : World) (k : Nat) (sp : Bool) (inb : List (Nat × 
     (connackPre w k sp inb).retryQ = (cp3 w k sp inb).retryQ ∧
     (connackPre w k sp inb).broker = (cp3 w k sp inb).broker ∧
     (connackPre w k sp inb).taskQ = (cp3 w k sp inb).taskQ ++
-      (if (cp3 w k sp inb).initialized = true ∧ (¬ sp = true ∨ (cp3 w k sp inb).cfg.always = true)
-        then [Task.resubscribe] else []) ++ [.retry] ∧
+      (if (cp3 w k sp inb).initialized = true ∧ (¬ sp = true ∨ (cp3 w k sp inb).cfg.always = true) ∧
+          ¬ (cp3 w k sp inb).stopped = true
+        then [Task.resubscribe] else []) ++
+      (if (cp3 w k sp inb).stopped = true then [] else [.retry]) ∧
     (connackPre w k sp inb).cli = (cp3 w k sp inb).cli ∧
     (connackPre w k sp inb).goroutine = (cp3 w k sp inb).goroutine ∧
     (connackPre w k sp inb).conns = (cp3 w k sp inb).conns ∧
     (connackPre w k sp inb).connReady = (cp3 w k sp inb).connReady ∧
-    (connackPre w k sp inb).initialized = true ∧ (connackPre w k sp inb).phase = .up k := by
-  unfold connackPre
-  dsimp only
-  split
-  · exact ⟨rfl, rfl, rfl, rfl, rfl, rfl, rfl, rfl, rfl, rfl, rfl, rfl⟩
-  · exact ⟨rfl, rfl, rfl, rfl, rfl, by simp [pushTask], rfl, rfl, rfl, rfl, rfl, rfl⟩
+    (connackPre w k sp inb).initialized = true ∧
+    (connackPre w k sp inb).phase = (if (cp3 w k sp inb).stopped = true then .exited else .up k) ∧
+    (connackPre w k sp inb).stopped = (cp3 w k sp inb).stopped := by
+  by_cases hs : (cp3 w k sp inb).stopped = true
+  · have hc : ¬ ((cp3 w k sp inb).initialized = true ∧
+        (¬ sp = true ∨ (cp3 w k sp inb).cfg.always = true) ∧ ¬ (cp3 w k sp inb).stopped = true) :=
+      fun h => h.2.2 hs
+    unfold connackPre
+    dsimp only
+    simp only [if_neg hc, if_pos hs, List.append_nil]
+    simp
+  · by_cases hc : (cp3 w k sp inb).initialized = true ∧
+        (¬ sp = true ∨ (cp3 w k sp inb).cfg.always = true) ∧ ¬ (cp3 w k sp inb).stopped = true
+    · have hs' : ¬ (pushTask (cp3 w k sp inb) .resubscribe).stopped = true := hs
+      unfold connackPre
+      dsimp only
+      have hs'' : ¬ (pushTask (pushTask (cp3 w k sp inb) .resubscribe) .retry).stopped = true := hs
+      simp only [if_pos hc, if_neg hs', if_neg hs, if_neg hs'']
+      exact ⟨rfl, rfl, rfl, rfl, rfl, rfl, rfl, rfl, rfl, rfl, trivial, trivial, rfl⟩
+    · unfold connackPre
+      dsimp only
+      have hs'' : ¬ (pushTask (cp3 w k sp inb) .retry).stopped = true := hs
+      simp only [if_neg hc, if_neg hs, if_neg hs'', List.append_nil]
+      exact ⟨rfl, rfl, rfl, rfl, rfl, rfl, rfl, rfl, rfl, rfl, trivial, trivial, rfl⟩
+
+/-- the task queue of the pre-progress world in terms of the pre-state -/
+theorem connackPre_taskQ' (w : World) (k : Nat) (sp : Bool) (inb : List (Nat × Nat)) :
+    (connackPre w k sp inb).taskQ =
+      w.taskQ ++ (if w.initialized = true ∧ (¬ sp = true ∨ w.cfg.always = true) ∧ ¬ w.stopped = true
+        then [Task.resubscribe] else []) ++ (if w.stopped = true then [] else [.retry]) := by
+  obtain ⟨_, f2, _, _, _, _, f7, f8, _, _, _, _, f13⟩ := cp3_fields w k sp inb
+  obtain ⟨_, _, _, _, _, p6, _⟩ := connackPre_fields w k sp inb
+  rw [p6, f2, f7, f8, f13]
 
 theorem connackPre_inv (w : World) (k : Nat) (sp : Bool) (inb : List (Nat × Nat))
-    (h : Inv w) (hk : InvK w) : Inv (connackPre w k sp inb) := by
-  obtain ⟨f1, f2, f3, f4, f5, f6, f7, f8, _⟩ := cp3_fields w k sp inb
-  obtain ⟨p1, p2, p3, p4, p5, p6, _⟩ := connackPre_fields w k sp inb
+    (hph : w.phase = .connackGate k) (h : Inv w) (hk : InvK w) : Inv (connackPre w k sp inb) := by
+  obtain ⟨f1, f2, f3, f4, f5, f6, f7, f8, _, _, _, _, f13⟩ := cp3_fields w k sp inb
+  obtain ⟨p1, p2, p3, p4, p5, p6, _, _, _, _, _, p12, _⟩ := connackPre_fields w k sp inb
   intro hs
   have hs' : w.stuck = false := by rw [← f1, ← p1]; exact hs
   have g := h hs'
@@ -1394,10 +1440,7 @@ theorem connackPre_inv (w : World) (k : Nat) (sp : Bool) (inb : List (Nat × Nat
   have e2 : (connackPre w k sp inb).accepted = w.accepted := p2.trans f3
   have e5 : (connackPre w k sp inb).broker.subs = (if sp then w.broker.subs else []) := by
     rw [p5]; exact f6
-  have e1 : (connackPre w k sp inb).taskQ =
-      w.taskQ ++ (if w.initialized = true ∧ (¬ sp = true ∨ w.cfg.always = true) then [.resubscribe] else [])
-        ++ [.retry] := by
-    rw [p6, f7, f8, f2]
+  have e1 := connackPre_taskQ' w k sp inb
   have hE : Em (connackPre w k sp inb) = Em w := by simp only [Em, e3]
   have hP : Pm (connackPre w k sp inb) =
       (pendOf w.retryQ).foldl netStep (if sp then Bm w else subMapEmpty) := by
@@ -1408,36 +1451,43 @@ theorem connackPre_inv (w : World) (k : Nat) (sp : Bool) (inb : List (Nat × Nat
     · exact noDupTopics_nil
     · exact g.nodupB
   · rw [e2, e1, hacc, reqsOf_append, reqsOf_append]
-    by_cases hc : w.initialized = true ∧ (¬ sp = true ∨ w.cfg.always = true)
-    · rw [if_pos hc]; simp [reqsOf, taskReq]
-    · rw [if_neg hc]; simp [reqsOf, taskReq]
+    have r1 : reqsOf (if w.initialized = true ∧ (¬ sp = true ∨ w.cfg.always = true) ∧ ¬ w.stopped = true
+        then [Task.resubscribe] else []) = [] := by split <;> rfl
+    have r2 : reqsOf (if w.stopped = true then [] else [Task.retry]) = [] := by split <;> rfl
+    rw [r1, r2]; simp
   · rw [hE, hP]
     cases sp
     · exact rweak_clear _ g.weak
     · exact g.weak
-  · rw [hE, hP, e1]
-    by_cases hc : w.initialized = true ∧ (¬ sp = true ∨ w.cfg.always = true)
-    · left; rw [if_pos hc]; simp
-    · rw [if_neg hc]
-      cases g.sup with
-      | inl h => left; simp [h]
-      | inr h =>
-        right
-        cases sp with
-        | true => exact h
-        | false =>
-          have hi : w.initialized = false := by simpa using hc
-          have hb := (hk hi).1
-          have : Bm w = subMapEmpty := by simp only [Bm, hb]; rfl
-          simp only [Bool.false_eq_true, if_false, ← this]
-          exact h
+  · rw [hE, hP, e1, p12, f13]
+    by_cases hst : w.stopped = true
+    · left; rw [if_pos hst]
+    · by_cases hc : w.initialized = true ∧ (¬ sp = true ∨ w.cfg.always = true) ∧ ¬ w.stopped = true
+      · right; left; rw [if_pos hc]; simp
+      · right
+        rcases g.sup with h | h | h
+        · rw [hph] at h; cases h
+        · left; exact List.mem_append_left _ (List.mem_append_left _ h)
+        · right
+          cases sp with
+          | true => exact h
+          | false =>
+            have hi : w.initialized = false := by
+              cases hx : w.initialized with
+              | false => rfl
+              | true => exact absurd ⟨hx, Or.inl (by simp), hst⟩ hc
+            have hb := (hk hi).1
+            have : Bm w = subMapEmpty := by simp only [Bm, hb]; rfl
+            simp only [Bool.false_eq_true, if_false, ← this]
+            exact h
 
 theorem progress_fields (w : World) :
     (progress w).initialized = w.initialized ∧
-    (∀ k, (progress w).phase = .connackGate k → w.phase = .connackGate k) := by
-  obtain ⟨_, _, _, _, _, _, g, _, _, _, _, _, h6⟩ := loopReact_eqs (runTasks (w.taskQ.length + 1) w)
+    (∀ k, (progress w).phase = .connackGate k → w.phase = .connackGate k) ∧
+    (w.phase = .exited → (progress w).phase = .exited) := by
+  obtain ⟨_, _, _, _, _, _, g, _, _, _, _, _, h6, h7⟩ := loopReact_eqs (runTasks (w.taskQ.length + 1) w)
   obtain ⟨a, b, _⟩ := runTasks_field (w.taskQ.length + 1) w
-  exact ⟨g.trans a, fun k hk => b ▸ h6 k hk⟩
+  exact ⟨g.trans a, fun k hk => b ▸ h6 k hk, fun hx => h7 (b ▸ hx)⟩
 
 theorem invL_of_eqs {w w' : World} (h : InvL w) (h1 : ∀ k, w'.phase = .connackGate k → w.phase = .connackGate k)
     (h2 : w'.cli = w.cli) (h3 : w'.goroutine = w.goroutine) (h4 : w'.conns.length = w.conns.length) :
@@ -1455,9 +1505,10 @@ theorem push_inv (w : World) (t : Task) (ht : taskReq t = none) (h : Inv w) : In
   · show w.accepted = pr ++ reqsOf (w.taskQ ++ [t])
     rw [reqsOf_append, a]
     simp [reqsOf, ht]
-  · cases g.sup with
-    | inl h => exact Or.inl (List.mem_append_left _ h)
-    | inr h => exact Or.inr h
+  · rcases g.sup with h | h | h
+    · exact Or.inl h
+    · exact Or.inr (Or.inl (List.mem_append_left _ h))
+    · exact Or.inr (Or.inr h)
 
 theorem push_req_inv (w : World) (r : Req) (h : Inv w) :
     Inv (pushTask { w with accepted := w.accepted ++ [r] } (.req r)) := by
@@ -1468,26 +1519,38 @@ theorem push_req_inv (w : World) (r : Req) (h : Inv w) :
   · show w.accepted ++ [r] = pr ++ reqsOf (w.taskQ ++ [.req r])
     rw [reqsOf_append, a]
     simp [reqsOf, taskReq]
-  · cases g.sup with
-    | inl h => exact Or.inl (List.mem_append_left _ h)
-    | inr h => exact Or.inr h
+  · rcases g.sup with h | h | h
+    · exact Or.inl h
+    · exact Or.inr (Or.inl (List.mem_append_left _ h))
+    · exact Or.inr (Or.inr h)
 
 theorem connectFailed_all (w : World) (k : Nat) (hph : w.phase = .connackGate k)
     (h : Inv w) (hk : InvK w) (hl : InvL w) :
     Inv (connectFailed w k) ∧ InvK (connectFailed w k) ∧ InvL (connectFailed w k) := by
   obtain ⟨l1, l2, l3⟩ := hl k hph
-  refine ⟨inv_of_eqs h rfl rfl rfl rfl rfl rfl, ?_, ?_⟩
-  · intro hi
+  have hdead : (getConn (kill { w with connReady := true } k) k).alive = false := by
+    unfold kill
+    rw [getConn_setConn, if_pos ⟨rfl, l3⟩]
+  have hx : w.phase = .exited → ∀ (P : Prop), P := fun hx => by rw [hph] at hx; cases hx
+  unfold connectFailed
+  dsimp only
+  split
+  · refine ⟨inv_of_eqs h rfl rfl rfl rfl rfl rfl (fun h => hx h _), ?_, fun k' hk' => by cases hk'⟩
+    intro hi
     obtain ⟨a, b, c, d⟩ := hk hi
     refine ⟨a, b, fun _ k' hk' => ?_, d⟩
     have hk'' : w.cli = some k' := hk'
     rw [l1] at hk''
     cases hk''
-    show (getConn (kill { w with connReady := true } k) k).alive = false
-    unfold kill
-    rw [getConn_setConn, if_pos ⟨rfl, l3⟩]
-  · intro k' hk'
-    cases hk'
+    exact hdead
+  · refine ⟨inv_of_eqs h rfl rfl rfl rfl rfl rfl (fun h => hx h _), ?_, fun k' hk' => by cases hk'⟩
+    intro hi
+    obtain ⟨a, b, c, d⟩ := hk hi
+    refine ⟨a, b, fun _ k' hk' => ?_, d⟩
+    have hk'' : w.cli = some k' := hk'
+    rw [l1] at hk''
+    cases hk''
+    exact hdead
 
 theorem step_all (w : World) (e : Ev) (h : Inv w) (hk : InvK w) (hl : InvL w) :
     Inv (step w e) ∧ InvK (step w e) ∧ InvL (step w e) := by
@@ -1495,13 +1558,14 @@ theorem step_all (w : World) (e : Ev) (h : Inv w) (hk : InvK w) (hl : InvL w) :
   | start =>
     simp only [step]
     split
-    · exact ⟨inv_of_eqs h rfl rfl rfl rfl rfl rfl,
+    · next hc =>
+      exact ⟨inv_of_eqs h rfl rfl rfl rfl rfl rfl (fun hx => by rw [hc] at hx; cases hx),
         invK_of hk rfl rfl rfl id rfl rfl rfl (fun _ h => h), fun k hk => by cases hk⟩
     · exact ⟨h, hk, hl⟩
   | app r =>
     simp only [step]
     split
-    · exact ⟨inv_of_eqs h rfl rfl rfl rfl rfl rfl,
+    · exact ⟨inv_of_eqs h rfl rfl rfl rfl rfl rfl id,
         invK_of hk rfl rfl rfl id rfl rfl rfl (fun _ h => h), invL_of_eqs hl (fun _ h => h) rfl rfl rfl⟩
     · exact ⟨progress_inv _ (push_req_inv w r h),
         progress_invK _ (invK_of hk rfl rfl rfl id rfl rfl rfl (fun _ h => h)),
@@ -1510,7 +1574,8 @@ theorem step_all (w : World) (e : Ev) (h : Inv w) (hk : InvK w) (hl : InvL w) :
     simp only [step]
     split
     · exact ⟨h, hk, hl⟩
-    · refine ⟨inv_of_eqs h rfl rfl rfl rfl rfl rfl, ?_, ?_⟩
+    · next hc =>
+      refine ⟨inv_of_eqs h rfl rfl rfl rfl rfl rfl (fun hx => by rw [hx] at hc; simp at hc), ?_, ?_⟩
       · intro hi
         obtain ⟨a, b, c, d⟩ := hk hi
         have b' : w.stuck = false := b
@@ -1530,18 +1595,22 @@ theorem step_all (w : World) (e : Ev) (h : Inv w) (hk : InvK w) (hl : InvL w) :
     simp only [step]
     split
     · exact ⟨h, hk, hl⟩
-    · exact ⟨inv_of_eqs h rfl rfl rfl rfl rfl rfl,
-        invK_of hk rfl rfl rfl id rfl rfl rfl (fun _ h => h), invL_of_eqs hl (fun _ h => h) rfl rfl rfl⟩
+    · split
+      · exact ⟨inv_of_eqs h rfl rfl rfl rfl rfl rfl (fun _ => rfl),
+          invK_of hk rfl rfl rfl id rfl rfl rfl (fun _ h => h), fun k hk => by cases hk⟩
+      · exact ⟨inv_of_eqs h rfl rfl rfl rfl rfl rfl id,
+          invK_of hk rfl rfl rfl id rfl rfl rfl (fun _ h => h), invL_of_eqs hl (fun _ h => h) rfl rfl rfl⟩
   | connackOk sp inb =>
     cases hph : w.phase with
     | connackGate k =>
       rw [step_connackOk w k sp inb hph]
-      obtain ⟨_, _, _, _, _, _, _, _, _, _, p11, p12⟩ := connackPre_fields w k sp inb
-      obtain ⟨q1, q2⟩ := progress_fields (connackPre w k sp inb)
-      refine ⟨progress_inv _ (connackPre_inv w k sp inb h hk), fun hi => ?_, fun k' hk' => ?_⟩
+      obtain ⟨_, _, _, _, _, _, _, _, _, _, p11, p12, _⟩ := connackPre_fields w k sp inb
+      obtain ⟨q1, q2, _⟩ := progress_fields (connackPre w k sp inb)
+      refine ⟨progress_inv _ (connackPre_inv w k sp inb hph h hk), fun hi => ?_, fun k' hk' => ?_⟩
       · rw [q1, p11] at hi; cases hi
       · have := q2 k' hk'
-        rw [p12] at this; cases this
+        rw [p12] at this
+        split at this <;> cases this
     | idle => simp only [step, hph]; exact ⟨h, hk, hl⟩
     | dialGate => simp only [step, hph]; exact ⟨h, hk, hl⟩
     | up k => simp only [step, hph]; exact ⟨h, hk, hl⟩
@@ -1572,7 +1641,7 @@ theorem step_all (w : World) (e : Ev) (h : Inv w) (hk : InvK w) (hl : InvL w) :
     cases hph : w.phase with
     | up k =>
       simp only [step, hph]
-      exact ⟨progress_inv _ (inv_of_eqs h rfl rfl rfl rfl rfl rfl),
+      exact ⟨progress_inv _ (inv_of_eqs h rfl rfl rfl rfl rfl rfl id),
         progress_invK _ (invK_of hk rfl rfl rfl id rfl rfl rfl (fun j hj => alive_kill w k j hj)),
         progress_invL _ (invL_of_eqs hl (fun _ h => h) rfl rfl (len_kill w k))⟩
     | idle => simp only [step, hph]; exact ⟨h, hk, hl⟩
@@ -1593,32 +1662,32 @@ theorem step_all (w : World) (e : Ev) (h : Inv w) (hk : InvK w) (hl : InvL w) :
     simp only [step]
     split
     · next k _ =>
-      exact ⟨inv_of_eqs h rfl rfl rfl rfl rfl rfl,
+      exact ⟨inv_of_eqs h rfl rfl rfl rfl rfl rfl id,
         invK_of hk rfl rfl rfl id rfl rfl rfl
           (fun j hj => (alive_setConn_same { w with handler := some hd } k
             { getConn { w with handler := some hd } k with handler := some hd } rfl j) ▸ hj),
         invL_of_eqs hl (fun _ h => h) rfl rfl (by simp)⟩
-    · exact ⟨inv_of_eqs h rfl rfl rfl rfl rfl rfl,
+    · exact ⟨inv_of_eqs h rfl rfl rfl rfl rfl rfl id,
         invK_of hk rfl rfl rfl id rfl rfl rfl (fun _ h => h), invL_of_eqs hl (fun _ h => h) rfl rfl rfl⟩
   | disconnect =>
     simp only [step]
     split
     · exact ⟨h, hk, hl⟩
     · have a : Inv (progress { pushTask w .disconnect with stopped := true }) :=
-        progress_inv _ (inv_of_eqs (push_inv w .disconnect rfl h) rfl rfl rfl rfl rfl rfl)
+        progress_inv _ (inv_of_eqs (push_inv w .disconnect rfl h) rfl rfl rfl rfl rfl rfl id)
       have b : InvK (progress { pushTask w .disconnect with stopped := true }) :=
         progress_invK _ (invK_of hk rfl rfl rfl id rfl rfl rfl (fun _ h => h))
       have c : InvL (progress { pushTask w .disconnect with stopped := true }) :=
         progress_invL _ (invL_of_eqs hl (fun _ h => h) rfl rfl rfl)
       split
-      · exact ⟨inv_of_eqs a rfl rfl rfl rfl rfl rfl,
+      · exact ⟨inv_of_eqs a rfl rfl rfl rfl rfl rfl (fun _ => rfl),
           invK_of b rfl rfl rfl id rfl rfl rfl (fun _ h => h), fun k hk => by cases hk⟩
-      · exact ⟨inv_of_eqs a rfl rfl rfl rfl rfl rfl,
+      · exact ⟨inv_of_eqs a rfl rfl rfl rfl rfl rfl (fun _ => rfl),
           invK_of b rfl rfl rfl id rfl rfl rfl (fun _ h => h), fun k hk => by cases hk⟩
       · exact ⟨a, b, c⟩
 
 theorem init_all (s : Script) : Inv (init s) ∧ InvK (init s) ∧ InvL (init s) := by
-  refine ⟨fun _ => ⟨noDupTopics_nil, noDupTopics_nil, ⟨[], rfl, rfl⟩, rweak_refl _, Or.inr (rsup_refl _)⟩,
+  refine ⟨fun _ => ⟨noDupTopics_nil, noDupTopics_nil, ⟨[], rfl, rfl⟩, rweak_refl _, Or.inr (Or.inr (rsup_refl _))⟩,
     fun _ => ⟨rfl, rfl, fun h => ?_, fun _ => rfl⟩, fun k hk => by cases hk⟩
   cases h with
   | inl h => cases h
@@ -1707,6 +1776,12 @@ theorem progress_done (w : World) (k : Nat) (hg : w.goroutine = true)
   rw [a, b]
   exact runTasks_done _ w k hg hc hcli (Nat.lt_succ_self _)
 
+theorem connectFailed_eqs (w : World) (k : Nat) :
+    (connectFailed w k).initialized = w.initialized ∧ (connectFailed w k).taskQ = w.taskQ := by
+  unfold connectFailed
+  dsimp only
+  split <;> exact ⟨rfl, rfl⟩
+
 /-- `initialized` is set by an accepted CONNACK only -/
 theorem step_initialized (w : World) (e : Ev) (h : (step w e).initialized = true) :
     w.initialized = true ∨ ∃ sp inb, e = .connackOk sp inb := by
@@ -1719,17 +1794,21 @@ theorem step_initialized (w : World) (e : Ev) (h : (step w e).initialized = true
     · exact h
     · rw [(progress_fields _).1] at h; exact h
   | dialOk i => left; simp only [step] at h; split at h <;> exact h
-  | dialFail => left; simp only [step] at h; split at h <;> exact h
+  | dialFail =>
+    left; simp only [step] at h
+    split at h
+    · exact h
+    · split at h <;> exact h
   | connackRefused =>
     left; simp only [step] at h
     split at h
-    · rw [(progress_fields _).1] at h; exact h
+    · rw [(progress_fields _).1, (connectFailed_eqs _ _).1] at h; exact h
     · exact h
   | connackNever =>
     left; simp only [step] at h
     split at h
     · split at h
-      · rw [(progress_fields _).1] at h; exact h
+      · rw [(progress_fields _).1, (connectFailed_eqs _ _).1] at h; exact h
       · exact h
     · exact h
   | peerClose =>
@@ -1772,14 +1851,15 @@ theorem step_resub_mem (w : World) (e : Ev) (h : Task.resubscribe ∈ (step w e)
     | connackGate k =>
       rw [step_connackOk w k sp inb hph] at h
       have hm := (progress_more _).2.subset h
-      obtain ⟨_, f2, _, _, _, _, f7, f8, _⟩ := cp3_fields w k sp inb
-      obtain ⟨_, _, _, _, _, p6, _⟩ := connackPre_fields w k sp inb
-      rw [p6, f2, f7, f8] at hm
-      by_cases hc : w.initialized = true ∧ (¬ sp = true ∨ w.cfg.always = true)
+      rw [connackPre_taskQ'] at hm
+      by_cases hc : w.initialized = true ∧ (¬ sp = true ∨ w.cfg.always = true) ∧ ¬ w.stopped = true
       · exact Or.inr ⟨hc.1, sp, inb, rfl⟩
       · rw [if_neg hc] at hm
-        simp at hm
-        exact Or.inl hm
+        left
+        simp only [List.append_nil, List.mem_append] at hm
+        cases hm with
+        | inl hm => exact hm
+        | inr hm => split at hm <;> simp at hm
     | idle => simp only [step, hph] at h; exact Or.inl h
     | dialGate => simp only [step, hph] at h; exact Or.inl h
     | up k => simp only [step, hph] at h; exact Or.inl h
@@ -1791,17 +1871,21 @@ theorem step_resub_mem (w : World) (e : Ev) (h : Task.resubscribe ∈ (step w e)
     · exact h
     · exact push _ _ (by simp) (by rfl) h
   | dialOk i => left; simp only [step] at h; split at h <;> exact h
-  | dialFail => left; simp only [step] at h; split at h <;> exact h
+  | dialFail =>
+    left; simp only [step] at h
+    split at h
+    · exact h
+    · split at h <;> exact h
   | connackRefused =>
     left; simp only [step] at h
     split at h
-    · exact prog _ (by rfl) h
+    · exact prog _ (connectFailed_eqs _ _).2 h
     · exact h
   | connackNever =>
     left; simp only [step] at h
     split at h
     · split at h
-      · exact prog _ (by rfl) h
+      · exact prog _ (connectFailed_eqs _ _).2 h
       · exact h
     · exact h
   | peerClose =>
@@ -2054,17 +2138,21 @@ theorem step_initialized_mono (w : World) (e : Ev) (h : w.initialized = true) :
     · exact h
     · rw [(progress_fields _).1]; exact h
   | dialOk i => simp only [step]; split <;> exact h
-  | dialFail => simp only [step]; split <;> exact h
+  | dialFail =>
+    simp only [step]
+    split
+    · exact h
+    · split <;> exact h
   | connackRefused =>
     simp only [step]
     split
-    · rw [(progress_fields _).1]; exact h
+    · rw [(progress_fields _).1, (connectFailed_eqs _ _).1]; exact h
     · exact h
   | connackNever =>
     simp only [step]
     split
     · split
-      · rw [(progress_fields _).1]; exact h
+      · rw [(progress_fields _).1, (connectFailed_eqs _ _).1]; exact h
       · exact h
     · exact h
   | peerClose =>
@@ -2101,5 +2189,168 @@ theorem mem_pendOf_sub {q : List Entry} {l : List Subscription} (h : SubCall.sub
   cases entryCall_sub hc with
   | inl h => exact Or.inl (h ▸ he)
   | inr h => exact Or.inr (h ▸ he)
+
+theorem runTasks_stopped (n : Nat) (w : World) : (runTasks n w).stopped = w.stopped := by
+  refine runTasks_induct (fun w' => w'.stopped = w.stopped) ?_ ?_ ?_ runTask_cli n w rfl
+  · intro w' h _ _ _; exact h
+  · intro w' k t rest h _ _ _ _ _
+    exact (runTask_frame { w' with taskQ := rest, totalTasks := w'.totalTasks + 1 } k t).stopped.trans h
+  · intro w' k h _ _; exact h
+
+theorem loopReact_exited (w : World) (h : (loopReact w).phase = .exited) :
+    w.phase = .exited ∨ w.stopped = true := by
+  unfold loopReact at h
+  split at h
+  · split at h
+    · next hp _ => rw [hp] at h; cases h
+    · split at h
+      · next hs => exact Or.inr hs
+      · cases h
+  · exact Or.inl h
+
+/-- the reconnect loop exits only after Disconnect -/
+theorem progress_exited (w : World) (h : (progress w).phase = .exited) :
+    w.phase = .exited ∨ w.stopped = true := by
+  cases loopReact_exited _ h with
+  | inl h1 => exact Or.inl ((runTasks_field _ w).2.1 ▸ h1)
+  | inr h1 => exact Or.inr ((runTasks_stopped _ w) ▸ h1)
+
+theorem progress_stopped (w : World) : (progress w).stopped = w.stopped := by
+  have : ∀ w : World, (loopReact w).stopped = w.stopped := by
+    intro w
+    unfold loopReact
+    split
+    · split
+      · rfl
+      · split <;> rfl
+    · rfl
+  unfold progress
+  rw [this, runTasks_stopped]
+
+theorem connectFailed_stopped (w : World) (k : Nat) :
+    (connectFailed w k).stopped = w.stopped ∧
+    ((connectFailed w k).phase = .exited → w.stopped = true) := by
+  unfold connectFailed
+  dsimp only
+  split
+  · next h => exact ⟨rfl, fun _ => h⟩
+  · exact ⟨rfl, fun h => by cases h⟩
+
+def evIsDisconnect : Ev → Bool
+  | .disconnect => true
+  | _ => false
+
+/-- `stopped` is set by the Disconnect event only, and the reconnect loop exits only when stopped -/
+theorem step_stopped_exited (w : World) (e : Ev) :
+    ((step w e).stopped = true → w.stopped = true ∨ evIsDisconnect e = true) ∧
+    ((w.phase = .exited → w.stopped = true) →
+      (step w e).phase = .exited → (step w e).stopped = true) := by
+  have pr : ∀ w0 : World, (w0.phase = .exited → w0.stopped = true) →
+      (progress w0).phase = .exited → (progress w0).stopped = true := by
+    intro w0 h0 hp
+    rw [progress_stopped]
+    cases progress_exited w0 hp with
+    | inl h => exact h0 h
+    | inr h => exact h
+  cases e with
+  | start =>
+    simp only [step]
+    split
+    · exact ⟨fun h => Or.inl h, fun _ h => by cases h⟩
+    · exact ⟨fun h => Or.inl h, fun h0 h => h0 h⟩
+  | app r =>
+    simp only [step]
+    split
+    · exact ⟨fun h => Or.inl h, fun h0 h => h0 h⟩
+    · exact ⟨fun h => Or.inl (by rw [progress_stopped] at h; exact h), fun h0 h => pr _ h0 h⟩
+  | dialOk i =>
+    simp only [step]
+    split
+    · exact ⟨fun h => Or.inl h, fun h0 h => h0 h⟩
+    · exact ⟨fun h => Or.inl h, fun _ h => by cases h⟩
+  | dialFail =>
+    simp only [step]
+    split
+    · exact ⟨fun h => Or.inl h, fun h0 h => h0 h⟩
+    · split
+      · next hs => exact ⟨fun h => Or.inl h, fun _ _ => hs⟩
+      · exact ⟨fun h => Or.inl h, fun h0 h => h0 h⟩
+  | connackOk sp inb =>
+    cases hph : w.phase with
+    | connackGate k =>
+      rw [step_connackOk w k sp inb hph]
+      obtain ⟨_, _, _, _, _, _, _, _, _, _, _, p12, p13⟩ := connackPre_fields w k sp inb
+      have f13 := (cp3_fields w k sp inb).2.2.2.2.2.2.2.2.2.2.2.2
+      refine ⟨fun h => Or.inl ?_, fun _ h => pr _ ?_ h⟩
+      · rw [progress_stopped, p13, f13] at h; exact h
+      · intro hx
+        rw [p12] at hx
+        rw [p13]
+        split at hx
+        · next hs => exact hs
+        · cases hx
+    | idle => simp only [step, hph]; exact ⟨fun h => Or.inl h, fun h0 h => h0 (hph ▸ h)⟩
+    | dialGate => simp only [step, hph]; exact ⟨fun h => Or.inl h, fun h0 h => h0 (hph ▸ h)⟩
+    | up k => simp only [step, hph]; exact ⟨fun h => Or.inl h, fun h0 h => h0 (hph ▸ h)⟩
+    | exited => simp only [step, hph]; exact ⟨fun h => Or.inl h, fun h0 _ => by simpa using h0⟩
+  | connackRefused =>
+    cases hph : w.phase with
+    | connackGate k =>
+      simp only [step, hph]
+      obtain ⟨c1, c2⟩ := connectFailed_stopped w k
+      exact ⟨fun h => Or.inl (by rw [progress_stopped, c1] at h; exact h),
+        fun _ h => pr _ (fun hx => c1 ▸ c2 hx) h⟩
+    | idle => simp only [step, hph]; exact ⟨fun h => Or.inl h, fun h0 h => h0 (hph ▸ h)⟩
+    | dialGate => simp only [step, hph]; exact ⟨fun h => Or.inl h, fun h0 h => h0 (hph ▸ h)⟩
+    | up k => simp only [step, hph]; exact ⟨fun h => Or.inl h, fun h0 h => h0 (hph ▸ h)⟩
+    | exited => simp only [step, hph]; exact ⟨fun h => Or.inl h, fun h0 _ => by simpa using h0⟩
+  | connackNever =>
+    cases hph : w.phase with
+    | connackGate k =>
+      simp only [step, hph]
+      split
+      · obtain ⟨c1, c2⟩ := connectFailed_stopped w k
+        exact ⟨fun h => Or.inl (by rw [progress_stopped, c1] at h; exact h),
+          fun _ h => pr _ (fun hx => c1 ▸ c2 hx) h⟩
+      · exact ⟨fun h => Or.inl h, fun h0 h => h0 (hph ▸ h)⟩
+    | idle => simp only [step, hph]; exact ⟨fun h => Or.inl h, fun h0 h => h0 (hph ▸ h)⟩
+    | dialGate => simp only [step, hph]; exact ⟨fun h => Or.inl h, fun h0 h => h0 (hph ▸ h)⟩
+    | up k => simp only [step, hph]; exact ⟨fun h => Or.inl h, fun h0 h => h0 (hph ▸ h)⟩
+    | exited => simp only [step, hph]; exact ⟨fun h => Or.inl h, fun h0 _ => by simpa using h0⟩
+  | peerClose =>
+    cases hph : w.phase with
+    | up k =>
+      simp only [step, hph]
+      exact ⟨fun h => Or.inl (by rw [progress_stopped] at h; exact h),
+        fun _ h => pr _ (fun hx => by
+          have : w.phase = .exited := hx
+          rw [hph] at this; cases this) h⟩
+    | idle => simp only [step, hph]; exact ⟨fun h => Or.inl h, fun h0 h => h0 (hph ▸ h)⟩
+    | dialGate => simp only [step, hph]; exact ⟨fun h => Or.inl h, fun h0 h => h0 (hph ▸ h)⟩
+    | connackGate k => simp only [step, hph]; exact ⟨fun h => Or.inl h, fun h0 h => h0 (hph ▸ h)⟩
+    | exited => simp only [step, hph]; exact ⟨fun h => Or.inl h, fun h0 _ => by simpa using h0⟩
+  | inbound m qos =>
+    cases hph : w.phase with
+    | up k =>
+      simp only [step, hph]
+      have sm := deliverInbound_same w k m qos
+      exact ⟨fun h => Or.inl (sm.stopped ▸ h), fun _ h => by rw [sm.phase, hph] at h; cases h⟩
+    | idle => simp only [step, hph]; exact ⟨fun h => Or.inl h, fun h0 h => h0 (hph ▸ h)⟩
+    | dialGate => simp only [step, hph]; exact ⟨fun h => Or.inl h, fun h0 h => h0 (hph ▸ h)⟩
+    | connackGate k => simp only [step, hph]; exact ⟨fun h => Or.inl h, fun h0 h => h0 (hph ▸ h)⟩
+    | exited => simp only [step, hph]; exact ⟨fun h => Or.inl h, fun h0 _ => by simpa using h0⟩
+  | handle hd =>
+    simp only [step]
+    split
+    · exact ⟨fun h => Or.inl h, fun h0 h => h0 h⟩
+    · exact ⟨fun h => Or.inl h, fun h0 h => h0 h⟩
+  | disconnect =>
+    refine ⟨fun _ => Or.inr rfl, fun h0 h => ?_⟩
+    simp only [step] at h ⊢
+    split
+    · next hs => exact hs
+    · have : (progress { pushTask w .disconnect with stopped := true }).stopped = true := by
+        rw [progress_stopped]
+      split <;> exact this
 
 end Mqtt.Retry
